@@ -26,7 +26,7 @@
 (* Once status # "run" nothing later in the same command has any effect    *)
 (* (the process has ended / the error has been raised).                    *)
 (***************************************************************************)
-EXTENDS HyNumbers, FiniteSets, SequencesExt
+EXTENDS HyNumbers, FiniteSets, SequencesExt, TLC
 
 Nil == <<>>
 NoLast == -1
@@ -35,7 +35,7 @@ NoLast == -1
 Stk(S, i) == IF i \in DOMAIN S.st THEN S.st[i] ELSE <<>>
 SetStk(S, i, s) ==
   IF s = <<>> THEN [S EXCEPT !.st = [j \in (DOMAIN S.st) \ {i} |-> S.st[j]]]
-  ELSE [S EXCEPT !.st = [j \in (DOMAIN S.st) \cup {i} |-> IF j = i THEN s ELSE S.st[j]]]
+  ELSE [S EXCEPT !.st = (i :> s) @@ S.st]       \* i |-> s, the rest as before
 
 \* ------------------------------------------------------------------ output
 \* code point of a non-negative integer given as magnitude, or -1 if it is no scalar value
@@ -84,10 +84,9 @@ PopN(S, i, n) == IF n = 0 THEN <<S, <<>>>>
                       IN <<q[1], <<r[2]>> \o q[2]>>
 RECURSIVE PushAll(_,_,_)
 PushAll(S, i, vs) == IF vs = <<>> THEN S ELSE PushAll(PushWrap(S, i, Head(vs)), i, Tail(vs))
-RECURSIVE SumOf(_)
-SumOf(vs) == IF vs = <<>> THEN RZero ELSE RAdd(Head(vs), SumOf(Tail(vs)))
-RECURSIVE ProdOf(_)
-ProdOf(vs) == IF vs = <<>> THEN ROne ELSE RMul(Head(vs), ProdOf(Tail(vs)))
+\* (strict folds, from the last value popped to the first; see RunFor for why not RECURSIVE)
+SumOf(vs) == FoldRight(RAdd, vs, RZero)
+ProdOf(vs) == FoldRight(RMul, vs, ROne)
 MapSeq(f(_), s) == [j \in DOMAIN s |-> f(s[j])]
 Repeat(v, n) == [j \in 1 .. n |-> v]
 
